@@ -393,8 +393,8 @@ def rule_partial(rep: Report, rid="C01.partial") -> None:
                 if not ok and cb[0] == "items" and cb[2] == "DocStringSeparator" and justified[("first", "DocString", "DocStringSeparator")]():
                     ok, why = True, "grammar: DocString has at least one #DocStringSeparator"
                 if not ok and base[0] == "ref" and isinstance(I.obj(base), HList):
-                    o = I.obj(base)
-                    if len(o.segs) == 1 and o.segs[0][0] == "loop" and br.canon(I.loops[o.segs[0][1]].get("iter", ("x",))) == ("items", ("param", "node"), "TableRow") \
+                    sg = nf.list_content(I, base, tree)
+                    if len(sg) == 1 and sg[0][0] == "loop" and br.canon(I.loops[sg[0][1]].get("iter", ("x",))) == ("items", ("param", "node"), "TableRow") \
                             and justified[("rows0", "DataTable")]():
                         ok, why = True, "grammar: a table node holds at least one #TableRow"
                 if not ok and base[0] == "ref" and isinstance(I.obj(base), HList) and any(s[0] == "e" for s in I.obj(base).segs):
